@@ -567,6 +567,76 @@ theorem scalarBind_find {c : Comp} {n : Nat} {b : Bind} {k : K} (h : scalarBind 
     · cases h
   · cases h
 
+theorem declared_prep {s : St} (h : AInv s) (key : Nat) (k : K) :
+    (prep (declared Cfg.fixed s key k)).2 = true ∧ AInv (prep (declared Cfg.fixed s key k)).1 ∧
+    (prep (declared Cfg.fixed s key k)).1.e.taken = s.e.taken ∧
+    (s.e.taken = true → (prep (declared Cfg.fixed s key k)).1.e.gen = s.e.gen) ∧
+    (prep (declared Cfg.fixed s key k)).1.c.binds =
+      (key, (newBind Cfg.fixed (pre Cfg.fixed s).c key (.ptr k) (pre Cfg.fixed s).nvid).2) :: s.c.binds ∧
+    (prep (declared Cfg.fixed s key k)).1.ptab = s.ptab ∧
+    s.c.intBindNum ≤ (prep (declared Cfg.fixed s key k)).1.c.intBindNum := by
+  have := compile_prep h key (.ptr k)
+  simpa [declared] using this
+
+theorem stepAddr_AInv (s : St) (p name : Nat) (h : AInv s) :
+    AInv (stepAddr Cfg.fixed s p name).1 ∧ (stepAddr Cfg.fixed s p name).2 ≠ .ierr ∧
+    (s.e.taken = true → (stepAddr Cfg.fixed s p name).1.e.gen = s.e.gen ∧ (stepAddr Cfg.fixed s p name).1.e.taken = true) := by
+  have hp := pre_facts s
+  have h0 : AInv (pre Cfg.fixed s) := AInv_pre h
+  unfold stepAddr
+  split
+  · exact ⟨h0, by simp, fun ht => ⟨by rw [hp.1], by rw [hp.1]; exact ht⟩⟩
+  · rename_i tb k hsb
+    obtain ⟨c1, c2, c3, c4, c5, c6, c7⟩ := declared_prep h (pkey p) k
+    rw [c1]
+    simp only [Bool.not_true, Bool.false_eq_true, if_false]
+    have hf := runAddr_frame (prep (declared Cfg.fixed s (pkey p) k)).1
+      tb (newBind Cfg.fixed (pre Cfg.fixed s).c (pkey p) (.ptr k) (pre Cfg.fixed s).nvid).2 p k
+    obtain ⟨f1, f2, f3, f4, _⟩ := hf
+    have htb := scalarBind_find hsb
+    refine ⟨AInv_of_run c2 f1 f2 ?_, f4, fun ht => ⟨?_, ?_⟩⟩
+    · intro ht
+      rcases f3 ht with h' | h'
+      · exact Or.inl h'
+      · right
+        have hb := h0.cinv.bInt (vkey name) tb htb.1 h'
+        have hs := Ty.slots_pos tb.ty
+        have := c2.fits
+        rw [hp.2.2.2.1] at hb
+        omega
+    · rw [f2.2.2.2.1, c4 ht]
+    · exact f2.2.2.2.2.2.1 (by rw [c3]; exact ht)
+
+theorem stepFunc_AInv (s : St) (fid : Nat) (k : K) (h : AInv s) :
+    AInv (stepFunc Cfg.fixed s fid k).1 ∧ (stepFunc Cfg.fixed s fid k).2 ≠ .ierr ∧
+    (s.e.taken = true → (stepFunc Cfg.fixed s fid k).1.e.gen = s.e.gen ∧ (stepFunc Cfg.fixed s fid k).1.e.taken = true) := by
+  unfold stepFunc
+  obtain ⟨c1, c2, c3, c4, c5, c6, c7⟩ := declared_prep h (fkey fid) k
+  rw [c1]
+  simp only [Bool.not_true, Bool.false_eq_true, if_false]
+  split
+  · rename_i e he
+    have hf := newBox_frame he
+    refine ⟨AInv_of_run (s' := { (prep (declared Cfg.fixed s (fkey fid) k)).1 with e := e }) c2 rfl hf.1
+      (fun ht => Or.inl (by rw [← hf.2.1]; exact ht)), by simp, fun ht => ⟨?_, ?_⟩⟩
+    · simp only []; rw [hf.1.2.2.2.1, c4 ht]
+    · simp only []; rw [hf.2.1, c3]; exact ht
+  · exact ⟨c2, by simp, fun ht => ⟨c4 ht, by rw [c3]; exact ht⟩⟩
+
+theorem rngAssign_frame (s : St) (k : K) (v : SV) (on : Option Nat) :
+    (rngAssign s k v on).1.c = s.c ∧ EFrame s.e (rngAssign s k v on).1.e ∧
+    (rngAssign s k v on).1.e.taken = s.e.taken ∧ (rngAssign s k v on).2 ≠ .ierr := by
+  unfold rngAssign
+  split
+  · simp [EFrame.refl]
+  · split
+    · split
+      · rename_i l hl
+        have := runAssign_frame s l k .set (.c v)
+        exact ⟨this.1, this.2.1, this.2.2.1, this.2.2.2.1⟩
+      · simp [EFrame.refl]
+    · simp [EFrame.refl]
+
 /-- One evaluation on the repaired code: the invariant is kept, `prepareEnv` never raises its internal
     error, and once an address of env.Ints was taken the backing array keeps its identity. -/
 theorem step_AInv (s : St) (a : Action) (h : AInv s) :
@@ -596,32 +666,48 @@ theorem step_AInv (s : St) (a : Action) (h : AInv s) :
     refine ⟨AInv_of_run c2 f1 f2 (fun ht => Or.inl (by rw [← f3]; exact ht)), f4, fun ht => ⟨?_, ?_⟩⟩
     · rw [f2.2.2.2.1, c4 ht]
     · rw [f3, c3]; exact ht
-  | addr p name =>
+  | addr p name => simp only [step]; exact stepAddr_AInv s p name h
+  | addrf p name fid =>
     simp only [step]
     split
     · exact ⟨h0, by simp, fun ht => ⟨by rw [hp.1], by rw [hp.1]; exact ht⟩⟩
     · rename_i tb k hsb
-      have hcp := compile_prep h (pkey p) (.ptr k)
-      simp only at hcp
-      obtain ⟨c1, c2, c3, c4, c5, c6, c7⟩ := hcp
-      rw [c1]
+      have h1 := stepFunc_AInv s fid k h
+      split
+      · have h2 := stepAddr_AInv (stepFunc Cfg.fixed s fid k).1 p name h1.1
+        refine ⟨h2.1, h2.2.1, fun ht => ?_⟩
+        have a1 := h1.2.2 ht
+        have a2 := h2.2.2 a1.2
+        exact ⟨by rw [a2.1, a1.1], a2.2⟩
+      · rename_i o hne
+        refine ⟨h1.1, ?_, h1.2.2⟩
+        intro ho; exact h1.2.1 ho
+  | rng kn vn kv last =>
+    simp only [step]
+    split
+    · exact ⟨h0, by simp, fun ht => ⟨by rw [hp.1], by rw [hp.1]; exact ht⟩⟩
+    · have hpp := plain_prep h0
+      obtain ⟨p1, p2, p3, p4, p5, p6⟩ := hpp
+      rw [p1]
       simp only [Bool.not_true, Bool.false_eq_true, if_false]
-      have hf := runAddr_frame (prep { pre Cfg.fixed s with c := (newBind Cfg.fixed (pre Cfg.fixed s).c (pkey p) (.ptr k) (pre Cfg.fixed s).nvid).1, nvid := (pre Cfg.fixed s).nvid + 1 }).1
-        tb (newBind Cfg.fixed (pre Cfg.fixed s).c (pkey p) (.ptr k) (pre Cfg.fixed s).nvid).2 p k
-      obtain ⟨f1, f2, f3, f4, _⟩ := hf
-      have htb := scalarBind_find hsb
-      refine ⟨AInv_of_run c2 f1 f2 ?_, f4, fun ht => ⟨?_, ?_⟩⟩
-      · intro ht
-        rcases f3 ht with h' | h'
-        · exact Or.inl h'
-        · right
-          have hb := h0.cinv.bInt (vkey name) tb htb.1 h'
-          have hs := Ty.slots_pos tb.ty
-          have := c2.fits
-          rw [hp.2.2.2.1] at hb
-          omega
-      · rw [f2.2.2.2.1, c4 ht]
-      · exact f2.2.2.2.2.2.1 (by rw [c3]; exact ht)
+      have base : ∀ ht : s.e.taken = true, (prep (pre Cfg.fixed s)).1.e.gen = s.e.gen ∧ (prep (pre Cfg.fixed s)).1.e.taken = true :=
+        fun ht => ⟨by rw [p4, hp.1], by rw [p3, hp.1]; exact ht⟩
+      split
+      · exact ⟨p2, by simp, base⟩
+      · rename_i i v
+        have f1 := rngAssign_frame (prep (pre Cfg.fixed s)).1 .int (.n i) kn
+        have i1 : AInv (rngAssign (prep (pre Cfg.fixed s)).1 .int (.n i) kn).1 :=
+          AInv_of_run p2 f1.1 f1.2.1 (fun ht => Or.inl (by rw [← f1.2.2.1]; exact ht))
+        split
+        · have f2 := rngAssign_frame (rngAssign (prep (pre Cfg.fixed s)).1 .int (.n i) kn).1 kv v vn
+          refine ⟨AInv_of_run i1 f2.1 f2.2.1 (fun ht => Or.inl (by rw [← f2.2.2.1]; exact ht)), f2.2.2.2, fun ht => ⟨?_, ?_⟩⟩
+          · rw [f2.2.1.2.2.2.1, f1.2.1.2.2.2.1]; exact (base ht).1
+          · rw [f2.2.2.1, f1.2.2.1]; exact (base ht).2
+        · rename_i o hne
+          refine ⟨i1, ?_, fun ht => ⟨?_, ?_⟩⟩
+          · intro ho; exact f1.2.2.2 ho
+          · rw [f1.2.1.2.2.2.1]; exact (base ht).1
+          · rw [f1.2.2.1]; exact (base ht).2
   | asg name o r =>
     simp only [step]
     split
